@@ -687,6 +687,26 @@ func c20SDK(c *Ctx) {
 				kindOf[h.Obj] = nm
 			}
 		}
+		// Resolve(append(prefix(), a, b)...) and Resolve([]resolver{…}...) list their resolvers element by element
+		var flatten func(args []ast.Expr, spread bool) []ast.Expr
+		flatten = func(args []ast.Expr, spread bool) []ast.Expr {
+			if !spread || len(args) != 1 {
+				return args
+			}
+			switch x := unparen(args[0]).(type) {
+			case *ast.CompositeLit:
+				return x.Elts
+			case *ast.CallExpr:
+				if builtinName(linfo, x) == "append" && len(x.Args) >= 1 {
+					head := flatten(x.Args[:1], true)
+					if x.Ellipsis.IsValid() && len(x.Args) == 2 {
+						return append(append([]ast.Expr{}, head...), flatten(x.Args[1:], true)...)
+					}
+					return append(append([]ast.Expr{}, head...), x.Args[1:]...)
+				}
+			}
+			return args
+		}
 		resolverNames := func(args []ast.Expr) []string {
 			var names []string
 			for _, a := range args {
@@ -718,7 +738,7 @@ func c20SDK(c *Ctx) {
 			if isResolve(call) {
 				recv, _ := methodCall(linfo, call)
 				root, names := chain(recv, depth+1)
-				return root, append(names, resolverNames(call.Args)...)
+				return root, append(names, resolverNames(flatten(call.Args, call.Ellipsis.IsValid()))...)
 			}
 			h := lx.declByObj(callee(linfo, call))
 			if h == nil || h.Body() == nil || len(h.Body().List) != 1 {
